@@ -233,8 +233,24 @@ func (g *Gen) Struct(depth int) reflect.Type {
 		}
 		fields = append(fields, f)
 	}
+	if r.Intn(8) == 0 {
+		// a wide struct: 9..16 names select the 16-bit key matcher of the decoder, more than 16 its map
+		// fallback; the encoder's program for it outgrows the small-struct paths
+		w := 9 + r.Intn(12) - len(fields)
+		simple := []reflect.Type{reflect.TypeOf(0), reflect.TypeOf(""), reflect.TypeOf(false), reflect.TypeOf(int8(0)), reflect.TypeOf([]int(nil))}
+		for i := 0; i < w; i++ {
+			name := genWideNames[i%len(genWideNames)]
+			if used[name] {
+				continue
+			}
+			used[name] = true
+			fields = append(fields, reflect.StructField{Name: name, Type: simple[r.Intn(len(simple))]})
+		}
+	}
 	return reflect.StructOf(fields)
 }
+
+var genWideNames = []string{"Alpha", "Bravo", "Charlie", "Delta", "Echo", "Foxtrot", "Golf", "Hotel", "India", "Juliett", "Kilo", "Lima", "Mike", "November", "Oscar", "Papa", "Quebec", "Romeo", "Sierra", "Tango"}
 
 var genStrings = []string{"", "a", "hello world", "\"q\"", "back\\slash", "tab\there", "nl\n", "<html>&amp;", "é", "日本語", "  ", "\x00\x01\x1f", "\x7f", "😀", "a/b", "\b\f", "1", "true", "null", " ", strings.Repeat("x", 70)}
 var genBadStrings = []string{"\xff", "a\xc3", "\xed\xa0\x80", "\xf4\x90\x80\x80", "ok\x80ok",
@@ -559,7 +575,7 @@ func matrixKinds() []matrixKind {
 	}
 }
 
-var matrixTags = []string{"", `json:"f,omitempty"`, `json:"f,string"`, `json:"f,omitempty,string"`, `json:"f"`}
+var matrixTags = []string{"", `json:"f,omitempty"`, `json:"f,string"`, `json:"f,omitempty,string"`, `json:"f"`, `json:"f<&>"`}
 
 // FieldMatrix calls f with every struct value of the matrix (several thousand, deterministic).
 func FieldMatrix(f func(t reflect.Type, v reflect.Value)) {
